@@ -280,6 +280,8 @@ Definition step_file (so st : bool) (ph : phase) (l : lop) : option phase :=
   | PC, LOpenAppend => Some PW
   | PC, LOpenReadTmp => Some PC
   | PC, LClose => Some PC
+  | PC, LUnlinkOut => if so then Some PC else None   (* late removal of the
+                                                        stale output *)
   | PC, LRename => Some PDone
   | PDone, LOpenReadOut => Some PDone
   | PDone, LCloseOut => Some PDone
@@ -511,6 +513,28 @@ Definition accepts_task (c : cfg) (n : nat) (t : list op) : bool :=
 (* the rename tail of split: parts 0 .. n-1 in order *)
 Definition ren (i : nat) : op := Rename (PTmp i) (POut i).
 
+Definition op_eqb (a b : op) : bool :=
+  match a, b with
+  | Unlink p, Unlink q | CreateTrunc p, CreateTrunc q
+  | OpenAppend p, OpenAppend q | Write p, Write q | Close p, Close q
+  | OpenRead p, OpenRead q => path_eqb p q
+  | Rename p1 p2, Rename q1 q2 => path_eqb p1 q1 && path_eqb p2 q2
+  | _, _ => false
+  end.
+
+Fixpoint ops_eqb (a b : list op) : bool :=
+  match a, b with
+  | [], [] => true
+  | x :: a', y :: b' => op_eqb x y && ops_eqb a' b'
+  | _, _ => false
+  end.
+
+(* the trace ends with the renames of parts 0 .. n-1, in this order
+   (the shape C10_split_parts speaks about; checked on the recorded split
+   traces) *)
+Definition split_shape (n : nat) (t : list op) : bool :=
+  ops_eqb (skipn (length t - n) t) (map ren (seq 0 n)).
+
 (* ------------------------------------------------------------------ *)
 (* interface for the correspondence check (Gen/TaskTraces.v, harness)  *)
 (* ------------------------------------------------------------------ *)
@@ -545,7 +569,8 @@ Definition vis_code (v : vis) : Z :=
 
 (* [accepted; first rejected position; number of operations;
     then for every output i: view of out_i, view of tmp_i after the
-    fault-free run; last: the trace is in its task's strict language] *)
+    fault-free run; then: the trace is in its task's strict language; it
+    ends with the renames of parts 0..n-1 in order] *)
 Definition check_case (tc : traced_case) : list Z :=
   match tc with
   | (tk, n, so, st, rle) =>
@@ -558,7 +583,8 @@ Definition check_case (tc : traced_case) : list Z :=
       ++ flat_map (fun i => [vis_code (view (wcount i t) (sF (POut i)));
                              vis_code (view (wcount i t) (sF (PTmp i)))])
                   (seq 0 n)
-      ++ [ (if accepts_task c n t then 1 else 0)%Z ]
+      ++ [ (if accepts_task c n t then 1 else 0)%Z;
+           (if split_shape n t then 1 else 0)%Z ]
   end.
 
 (* predicted observation after a fault at operation k:
